@@ -10,6 +10,8 @@ tier = sys.argv[4] if len(sys.argv) > 4 and not sys.argv[4].startswith('--') els
 recheck = '--recheck' in sys.argv        # only re-run the check against the kept patch and update meta.json
 env = dict(os.environ, GOFLAGS='-mod=mod', GOPROXY='off', GOSUMDB='off', GOTOOLCHAIN='local')
 d = tempfile.mkdtemp(prefix='seed-')
+os.makedirs(d + '/tmp')
+env['TMPDIR'] = d + '/tmp'        # the demos and the suite leave directories behind: inside the scratch copy
 repo = d + '/repo'
 subprocess.run(['rsync', '-a', '--exclude', '.git', '--exclude', '_seed', '/repo/', repo + '/'], check=True)
 demo_src = open(src + '/demo_test.go').read()
